@@ -116,13 +116,15 @@ func (vc *VC) staticCall(call ssa.CallInstruction, callee *ssa.Function, binding
 				if ac.Fn != vc.e.fname(callee) {
 					continue
 				}
+				vc.evalPos = call.Pos()
 				ce := vc.envAt(vc.blk, vc.cur, nil)
+				vc.evalPos = token.NoPos
 				for i, p := range callee.Params {
 					if i < len(args) {
-						ce.vars[p.Name()] = cval{t: args[i], typ: argTypes[i]}
+						ce.vars[p.Name()] = cval{t: args[i], typ: argTypes[i], src: vc.fromField[c.Args[i]]}
 					}
 				}
-				t := ce.eval(ac.Req)
+				t := ce.evalTop(ac.Req, true)
 				if ce.err != nil {
 					vc.unsupp("at_call %q: %v", ac.Text, ce.err)
 					continue
@@ -153,6 +155,19 @@ func (vc *VC) staticCall(call ssa.CallInstruction, callee *ssa.Function, binding
 	if callee.Pkg == vc.e.pkg && callee.Blocks != nil {
 		name := vc.e.fname(callee)
 		con := vc.e.cs.Funcs[name]
+		if con != nil && con.PrintfLike && len(c.Args) >= 2 {
+			na := len(c.Args)
+			// forwarding one's own (format, args) is covered by the caller's own call sites
+			forwarded := vc.con != nil && vc.con.PrintfLike && len(vc.fn.Params) >= 2 &&
+				c.Args[na-2] == ssa.Value(vc.fn.Params[len(vc.fn.Params)-2]) && c.Args[na-1] == ssa.Value(vc.fn.Params[len(vc.fn.Params)-1])
+			if !forwarded {
+				cond, ok := vc.nlfreeOfFormat(c.Args[na-2], c.Args[na-1])
+				if !ok {
+					cond = "false"
+				}
+				vc.check("nlfree-msg", call.Pos(), "", cond, []string{"C16"})
+			}
+		}
 		m := vc.callModSet(call)
 		if con != nil {
 			var names []string
@@ -211,7 +226,7 @@ func (vc *VC) applyContract(call ssa.CallInstruction, con *Contract, names []str
 	}
 	for _, r := range con.Requires {
 		ce.err = nil
-		t := ce.eval(r.Expr)
+		t := ce.evalTop(r.Expr, true)
 		if ce.err != nil {
 			vc.unsupp("requires of %s: %v", con.Fn, ce.err)
 			continue
@@ -252,7 +267,7 @@ func (vc *VC) applyContract(call ssa.CallInstruction, con *Contract, names []str
 	}
 	for _, en := range con.Ensures {
 		ce.err = nil
-		t := ce.eval(en.Expr)
+		t := ce.evalTop(en.Expr, false)
 		if ce.err != nil {
 			vc.unsupp("ensures of %s: %v", con.Fn, ce.err)
 			continue
@@ -386,18 +401,21 @@ func (vc *VC) appendCall(call ssa.CallInstruction) {
 	inner := "(Array Int " + vc.e.sortOf(st.Elem()) + ")"
 	contents := vc.fresh("contents", inner)
 	off := sx("s_off", s)
-	vc.gfact(fmt.Sprintf("(forall ((i Int)) (! (=> (and (<= 0 i) (< i %s)) (= (select %s (+ %s i)) (select (select %s %s) (+ %s i)))) :pattern ((select %s (+ %s i)))))",
-		sx("s_len", s), contents, off, E, sx("s_arr", s), off, contents, off))
-	if vc.e.sortOf(c.Args[1].Type()) == SSlice {
-		vc.gfact(fmt.Sprintf("(forall ((i Int)) (! (=> (and (<= 0 i) (< i %s)) (= (select %s (+ %s (+ %s i))) (select (select %s %s) (+ %s i)))) :pattern ((select %s (+ %s (+ %s i))))))",
-			tl, contents, off, sx("s_len", s), E, sx("s_arr", t), sx("s_off", t), contents, off, sx("s_len", s)))
-	}
 	vc.setArr(en, es, Sto(E, a, contents))
 	nl := Add(sx("s_len", s), tl)
 	cp := vc.fresh("cap", SInt)
 	vc.fact(Ge(cp, nl))
 	// append(nil, empty...) stays nil
 	vc.setVal(v, Ite(And(Eq(sx("s_arr", s), "0"), Eq(tl, "0")), "nil_slice", sx("mk_slice", a, off, nl, cp)))
+	// contents of the result, stated on elements (triggers: the elements of the operands)
+	E2 := vc.arrCur(en, es)
+	res := vc.val[v]
+	vc.gfact(fmt.Sprintf("(forall ((i Int)) (! (=> (and (<= 0 i) (< i %s)) (= %s %s)) :pattern (%s) :pattern (%s)))",
+		sx("s_len", s), vc.eltTerm(st.Elem(), E2, res, "i"), vc.eltTerm(st.Elem(), E, s, "i"), vc.eltTerm(st.Elem(), E2, res, "i"), vc.eltTerm(st.Elem(), E, s, "i")))
+	if vc.e.sortOf(c.Args[1].Type()) == SSlice {
+		vc.gfact(fmt.Sprintf("(forall ((i Int)) (! (=> (and (<= 0 i) (< i %s)) (= %s %s)) :pattern (%s)))",
+			tl, vc.eltTerm(st.Elem(), E2, res, "(+ "+sx("s_len", s)+" i)"), vc.eltTerm(st.Elem(), E, t, "i"), vc.eltTerm(st.Elem(), E, t, "i")))
+	}
 	if nonnil && !vc.e.cs.NonNilElem[vc.e.typeName(c.Args[1].Type())] {
 		if ob := vc.check("nonnil-append", call.Pos(), "", Eq(tl, "0"), sp); ob != nil {
 			ob.Detail = vc.e.typeName(c.Args[0].Type())
@@ -449,6 +467,10 @@ func (vc *VC) libCall(call ssa.CallInstruction, callee *ssa.Function, args []Ter
 			vc.gfact(Imp(And(r, Gt(sx("slen", args[1]), "0")), Eq(sx("sat", args[0], "0"), sx("sat", args[1], "0"))))
 			vc.gfact(Imp(And(Eq(sx("slen", args[1]), "1"), Gt(sx("slen", args[0]), "0")), Eq(r, Eq(sx("sat", args[0], "0"), sx("sat", args[1], "0")))))
 		}
+		return true
+	case "strings.Compare":
+		r := strRes()
+		vc.gfact(And(Eq(Eq(r, "0"), Eq(args[0], args[1])), Ge(r, "(- 1)"), Le(r, "1")))
 		return true
 	case "strings.Contains", "strings.ContainsRune", "strings.ContainsAny", "strings.EqualFold":
 		strRes()
@@ -540,6 +562,70 @@ func (vc *VC) libCall(call ssa.CallInstruction, callee *ssa.Function, args []Ter
 	case "os.Getenv":
 		strRes()
 		return true
+	case "(*regexp.Regexp).MatchString":
+		// pure: a function of the compiled expression and the text
+		fn := sym("spec:rematch")
+		vc.declareFun(fn, []string{"Int", SStr}, "Bool")
+		vc.setVal(v, sx(fn, args[0], args[1]))
+		return true
+	case "(*exec.ExitError).ExitCode", "(*os.ProcessState).ExitCode":
+		fn := sym("spec:exitcode")
+		vc.declareFun(fn, []string{"Int"}, "Int")
+		vc.setVal(v, sx(fn, args[0]))
+		return true
+	case "doublestar.MatchUnvalidated":
+		fn := sym("spec:globmatch")
+		vc.declareFun(fn, []string{SStr, SStr}, "Bool")
+		vc.setVal(v, sx(fn, args[0], args[1]))
+		return true
+	}
+	// text/scanner: abstract model. A scanner s reads the rune sequence src(s); pos(s) runes have been consumed.
+	//   rune_at(n) = n < len ? rune(n) : EOF;  Peek() = rune_at(pos);  Next() = rune_at(pos), pos++ unless EOF
+	switch name {
+	case "(*scanner.Scanner).Init", "(*scanner.Scanner).Peek", "(*scanner.Scanner).Next", "(*scanner.Scanner).Pos":
+		vc.declareFun("sc_rune", []string{"Int", "Int"}, "Int")
+		vc.declareFun("sc_len", []string{"Int"}, "Int")
+		sc := args[0]
+		srcA, posA := vc.arrCur("SC:src", "(Array Int Int)"), vc.arrCur("SC:pos", "(Array Int Int)")
+		src, pos := Sel(srcA, sc), Sel(posA, sc)
+		runeAt := func(id, n Term) Term {
+			return Ite(Ge(n, sx("sc_len", id)), "(- 1)", sx("sc_rune", id, n))
+		}
+		switch name {
+		case "(*scanner.Scanner).Init":
+			id := vc.fresh("scansrc", SInt)
+			vc.fact(Ge(sx("sc_len", id), "0"))
+			vc.setArr("SC:src", "(Array Int Int)", Sto(srcA, sc, id))
+			vc.setArr("SC:pos", "(Array Int Int)", Sto(posA, sc, "0"))
+			vc.setResult(call, []Term{sc})
+		case "(*scanner.Scanner).Peek":
+			r := vc.fresh("peek", SInt)
+			vc.fact(Eq(r, runeAt(src, pos)))
+			vc.gfact(And(Ge(pos, "0"), Le(pos, sx("sc_len", src)), Imp(Lt(pos, sx("sc_len", src)), Ge(sx("sc_rune", src, pos), "0")), Ge(r, "(- 1)"), Le(r, "1114111")))
+			vc.setResult(call, []Term{r})
+		case "(*scanner.Scanner).Next":
+			r := vc.fresh("next", SInt)
+			vc.fact(Eq(r, runeAt(src, pos)))
+			vc.gfact(And(Ge(pos, "0"), Le(pos, sx("sc_len", src)), Imp(Lt(pos, sx("sc_len", src)), Ge(sx("sc_rune", src, pos), "0")), Ge(r, "(- 1)"), Le(r, "1114111")))
+			vc.setArr("SC:pos", "(Array Int Int)", Sto(posA, sc, Ite(Eq(r, "(- 1)"), pos, Add(pos, "1"))))
+			vc.setResult(call, []Term{r})
+		case "(*scanner.Scanner).Pos":
+			rs := vc.havocResults(call)
+			if len(rs) == 1 {
+				sort := vc.e.sortOf(call.Common().Signature().Results().At(0).Type())
+				if si := vc.e.structs[sort]; si != nil {
+					for i, f := range si.fields {
+						switch f.Name() {
+						case "Offset", "Column":
+							vc.gfact(Ge(sx(si.accs[i], rs[0]), "0"))
+						case "Line":
+							vc.gfact(Ge(sx(si.accs[i], rs[0]), "1"))
+						}
+					}
+				}
+			}
+		}
+		return true
 	}
 	// methods on library types: pattern based
 	switch {
@@ -560,6 +646,28 @@ func (vc *VC) libCall(call ssa.CallInstruction, callee *ssa.Function, args []Ter
 
 // sprintfFacts: the nlfree discipline for formatted strings (C16).
 func (vc *VC) sprintfFacts(call ssa.CallInstruction, r Term) {
+	c := call.Common()
+	callee := c.StaticCallee()
+	if callee == nil || vc.e.sortOf(call.Value().Type()) != SStr {
+		return
+	}
+	switch libName(callee) {
+	case "fmt.Sprintf":
+		if len(c.Args) != 2 {
+			return
+		}
+		// inside a printf-like wrapper the message is nlfree by the wrapper's call-site obligation
+		if vc.con != nil && vc.con.PrintfLike && len(vc.fn.Params) >= 2 {
+			np := len(vc.fn.Params)
+			if c.Args[0] == ssa.Value(vc.fn.Params[np-2]) && c.Args[1] == ssa.Value(vc.fn.Params[np-1]) {
+				vc.gfact(sx("nlfree", r))
+				return
+			}
+		}
+		if cond, ok := vc.nlfreeOfFormat(c.Args[0], c.Args[1]); ok {
+			vc.gfact(Imp(cond, sx("nlfree", r)))
+		}
+	}
 }
 
 var _ = token.NoPos
@@ -601,7 +709,8 @@ func (vc *VC) invokeImpls(call ssa.CallInstruction, recv Term) {
 		guard := Eq(sx("i_tag", recv), IntLit(int64(vc.e.tagOf(rt))))
 		rv := vc.unbox(sx("i_val", recv), rt)
 		if _, isPtr := rt.Underlying().(*types.Pointer); isPtr && vc.e.cs.NonNilBoxed[vc.e.typeName(rt)] {
-			guard = And(guard, Ne(rv, "0"))
+			// discipline: this pointer type is never boxed as a typed nil
+			vc.gfact(Imp(guard, Ne(rv, "0")))
 		}
 		inf := implInfo{con: con, g: g, guard: guard}
 		inf.names = append(inf.names, g.Params[0].Name())
